@@ -299,6 +299,17 @@ def family_special(rnd, tier):
         out.append(sc)
         sc = SC("spec-recopy-sole-fifo-%o" % um, [E("p", "fifo", m=0o644), E("d", "fifo", m=0o600)], ["p"], "d", r=False, cls="special"); sc["umask"] = um
         out.append(sc)
+    # many directories, each with several nodes: node creation by the workers overlaps directory creation by the walker
+    # (the file-creation mask is per process: nothing the walker does may leak into the nodes' modes)
+    for um in (0o022, 0o027):
+        fs = [E("s", "dir")]
+        for di in range(12):
+            fs.append(E("s/d%02d" % di, "dir"))
+            for fi in range(4):
+                fs.append(E("s/d%02d/p%d" % (di, fi), "fifo", m=0o666))
+            fs.append(E("s/d%02d/c" % di, "chr", "1:3", m=0o666))
+        sc = SC("spec-many-dirs-%o" % um, fs, ["s"], "d", cls="special"); sc["umask"] = um; sc["repeat"] = 6; sc["nomodel"] = True
+        out.append(sc)
     out.append(SC("spec-blk-sole", [E("bd", "blk", "7:0")], ["bd"], "d", r=False, cls="special"))
     out.append(SC("spec-blk-tree", tree("s", {"a": "F1", "bd": ("blk", 7, 1), "z": "F2"}), ["s"], "d", cls="special"))
     return out
@@ -316,6 +327,10 @@ def family_reject(rnd, tier):
             n += 1; out.append(SC("rej-missing-%s-%d" % (dn, pos), good + dst, srcs, "d", cls="reject"))
             srcs = ["g1", "g2"]; srcs.insert(pos, "gd")
             n += 1; out.append(SC("rej-dir-norec-%s-%d" % (dn, pos), good + dst, srcs, "d", r=False, cls="reject"))
+        for bad_src, extra_fs in (("g1/x", []), ("loop", [E("loop", "link", "loop")]), ("l1", [E("l1", "link", "l2"), E("l2", "link", "l1")]), ("dang", [E("dang", "link", "nowhere")])):
+            for pos in (0, 2):
+                srcs = ["g1", "g2"]; srcs.insert(pos, bad_src)
+                out.append(SC("rej-unresolvable-%s-%s-%d" % (bad_src.replace("/", "_"), dn, pos), good + extra_fs + dst, srcs, "d", cls="reject"))
         out.append(SC("rej-multi-nondir-%s" % dn, good + dst, ["g1", "g2"], "d", r=False, cls="reject"))
         out.append(SC("rej-same-%s" % dn, good + dst, ["g1", "d"], "d", cls="reject"))
         out.append(SC("rej-same-target-%s" % dn, good + dst + [E("d/q", "file", "F4")] if dn in ("dir", "populated") else good + dst, ["g2", "d/g1"] if dn in ("dir", "populated") else ["g1"], "g1" if dn not in ("dir", "populated") else "d", r=False, cls="reject"))
